@@ -549,7 +549,9 @@ DataNext == PushLeaf \/ MkList \/ MkDotted \/ MkVec \/ MkQuote \/ MkForm
 (* The Strings generator (part c).                                         *)
 
 Alphabet == { Code(c) : c \in {"(", ")", "[", "]", "{", "}", "'", "`", ",", "@", "#", "\\", "\"", "|", ";",
-                               ".", "+", "-", "1", "a", "e", "x", " "} } \cup {10}
+                               ".", "+", "-", "1", "a", "e", "x", " ", "/", "0"} } \cup {10, 233}
+\* (10 = newline; 233 = U+00E9, a character of more than one byte: every lexer arm that slices the
+\*  text by position meets it in every position; "/" and "0": rationals, also with denominator zero)
 
 StrNext == /\ Len(txt) < MAXLEN
            /\ \E c \in Alphabet : txt' = Append(txt, c)
